@@ -2,7 +2,7 @@
    Pinned statements only.  Model: Model/Manip.v (m_clone = clone_node), Model/Hist.v (clone_with_prefixes). *)
 From Coq Require Import List NArith ZArith.
 From XotV Require Import Model.Base Model.Zipper Model.Access Model.Store Model.Manip Model.Fullname Model.Scope Model.NsTools Model.Hist
-                         Proofs.ManipProofs Proofs.InvSteps Proofs.InvApi Proofs.CloneFrame Proofs.TreeFrame Proofs.TreeFrameApi.
+                         Proofs.ManipProofs Proofs.InvSteps Proofs.InvApi Proofs.CloneFrame Proofs.TreeFrame Proofs.TreeFrameApi Spec.NoAdj Proofs.CloneShape.
 From XotV Require Import Model.Interning.
 Import ListNotations.
 Open Scope N_scope.
@@ -93,3 +93,47 @@ Theorem C12_api_mutating_one_side_leaves_the_other_untouched :
     exists A' B', store (snd (tfinal nm (t, st) ops)) = fapp A' (fapp T B').
 Proof. exact tree_frame_api_history. Qed.
 Print Assumptions C12_api_mutating_one_side_leaves_the_other_untouched.
+
+
+(* "clone_node returns a new unattached tree that is deep-equal to the source (up to merging of text nodes that were adjacent
+   in the source, when consolidation is on) with the same namespace declarations and attribute order, and it is made entirely of
+   new nodes": for EVERY node [n] of EVERY good store (C04: every reachable one), whatever its kind and wherever it sits,
+   clone_node succeeds and returns a handle [c]; the new store is one new root [c] — with the source's value — in front of the
+   store as it was; and the children [K] of [c] are, slots forgotten ([erase]), exactly the copy the specification [ucopy]
+   describes: the source's children in the source's order (namespace nodes, attribute nodes, ordinary children), every node
+   with the source's value and, recursively, the copy of its own children, where a text node goes into a text node it would
+   otherwise follow when consolidation is on ([usnoc]).  Proved by following the edge replay of src/manipulation.rs
+   (Model/Manip.v clone_edges) along the whole traversal: Proofs/CloneShape.v. *)
+Theorem C12_clone_is_a_deep_copy :
+  forall st n z, Good st -> cur st n = Some z ->
+    exists st' c K, m_clone st n = (st', MDone (Some c)) /\ Good st' /\ cons st' = cons st
+      /\ store st' = FCons c (z_val z) K (store st) /\ erase K = ucopy (cons st) (z_kids z) UNil.
+Proof. exact clone_shape. Qed.
+Print Assumptions C12_clone_is_a_deep_copy.
+
+(* with consolidation off, or with no two text nodes adjacent anywhere (C04: so it is in every store reached with consolidation
+   on, the C04_no_adjacent_text theorems), "up to merging" is "equal": the children of the clone are the children of the source, slots
+   forgotten *)
+Theorem C12_clone_equals_source :
+  forall st n z, Good st -> cur st n = Some z -> (cons st = false \/ noadj st) ->
+    exists st' c K, m_clone st n = (st', MDone (Some c)) /\ Good st' /\ cons st' = cons st
+      /\ store st' = FCons c (z_val z) K (store st) /\ erase K = erase (z_kids z).
+Proof. exact clone_exact. Qed.
+Print Assumptions C12_clone_equals_source.
+
+(* "made entirely of new nodes": no slot of the clone is a slot of the store the call started from *)
+Theorem C12_clone_is_made_of_new_nodes :
+  forall st st' c v K, Good st' -> store st' = FCons c v K (store st) -> forall x, In x (c :: ids K) -> ~ In x (ids (store st)).
+Proof. exact clone_new_nodes. Qed.
+Print Assumptions C12_clone_is_made_of_new_nodes.
+
+(* the specification on a concrete level: consolidation merges the two adjacent text nodes, keeps declarations, attributes and
+   nesting in place; with consolidation off nothing is merged *)
+Example C12_ucopy_example :
+  let src := FCons 1 (VNamespace 2 3) FNil (FCons 2 (VAttribute 5 [97]%N) FNil
+             (FCons 3 (VText [120]%N) FNil (FCons 4 (VText [121]%N) FNil (FCons 5 (VElement 7) (FCons 6 (VText [122]%N) FNil FNil) FNil)))) in
+  ucopy true src UNil
+  = UCons (VNamespace 2 3) UNil (UCons (VAttribute 5 [97]%N) UNil
+      (UCons (VText [120; 121]%N) UNil (UCons (VElement 7) (UCons (VText [122]%N) UNil UNil) UNil)))
+  /\ ucopy false src UNil = erase src.
+Proof. split; vm_compute; reflexivity. Qed.
